@@ -230,7 +230,7 @@ def build_harness(pid, cfg):
 def run_cases(outdir, files):
     """coqc every case file; returns (mismatches {file: [idx]}, errors [str])"""
     def one(f):
-        rc, out = sh(["timeout", "1500", "coqc", "-Q", COQ, "Verif", "-w", "-all", f], cwd=outdir)
+        rc, out = sh(["timeout", "1500", "coqc", "-noglob", "-Q", COQ, "Verif", "-w", "-all", f], cwd=outdir)
         return f, rc, out
     mism, errs = {}, []
     with concurrent.futures.ThreadPoolExecutor(max_workers=8) as ex:
